@@ -314,9 +314,13 @@ impl Walrus {
                         // The column lock was released for the read: another consumer may have
                         // committed this very entry (or more) in the meantime. Returning it again
                         // would deliver it twice, so take the newer position and try again.
+                        // Likewise, if the writer sealed the block we read from in the meantime it now
+                        // is part of the chain (which holds the cursor for it): retry through the
+                        // sealed path instead of committing a tail position for a sealed block.
                         if checkpoint
-                            && info.tail_block_id == active_block.id
-                            && info.tail_offset > tail_off
+                            && ((info.tail_block_id == active_block.id
+                                && info.tail_offset > tail_off)
+                                || info.cur_block_idx < info.chain.len())
                         {
                             drop(info);
                             continue;
@@ -830,7 +834,13 @@ impl Walrus {
 
         // Plan tail if we're at the end of sealed chain
         if cur_idx >= chain_len_at_plan {
-            if let Some((active_block, written)) = writer_snapshot.clone() {
+            // The writer snapshot was taken before the cursor lock: if that block was sealed in the
+            // meantime it already is in the chain planned above and must not be planned again as tail.
+            let snapshot_sealed = writer_snapshot
+                .as_ref()
+                .map(|(b, _)| chain.iter().any(|c| c.id == b.id))
+                .unwrap_or(false);
+            if let Some((active_block, written)) = writer_snapshot.clone().filter(|_| !snapshot_sealed) {
                 // Determine start of tail read
                 let mut tail_start = if start_offset.is_some() {
                     tail_offset // 'rem'
